@@ -6,14 +6,26 @@
 set -u
 ROOT="$(cd "$(dirname "$0")" && pwd)"
 export GOFLAGS=-mod=mod GOPROXY=off GOSUMDB=off GOTOOLCHAIN=local
-export VERIF_ROOT="$ROOT"
-BIN="$ROOT/.build/bin"
-mkdir -p "$BIN" "$ROOT/.build/logs" "$ROOT/evidence" "$ROOT/replay"
+# VERIF_REPO (default /repo) and VERIF_OUT (default this directory) exist only for trying the checks
+# on scratch worktrees in parallel (seeded changes); registered commands never set them.
+REPO="${VERIF_REPO:-/repo}"
+OUT="${VERIF_OUT:-$ROOT}"
+export VERIF_ROOT="$OUT"
+BIN="$OUT/.build/bin"
+mkdir -p "$BIN" "$OUT/.build/logs" "$OUT/evidence" "$OUT/replay"
+MODFLAG=""
+if [ "$REPO" != /repo ]; then
+  sed "s#=> /repo#=> $REPO#" "$ROOT/harness/go.mod" > "$BIN/alt.mod"; cp -f "$ROOT/harness/go.sum" "$BIN/alt.sum"
+  MODFLAG="-modfile=$BIN/alt.mod"
+fi
+if [ "$OUT" != "$ROOT" ]; then
+  ln -sfn "$ROOT/corpus" "$OUT/corpus"; cp -f "$ROOT/known_findings.json" "$OUT/known_findings.json"
+fi
 
 build() { # $1 = output name, rest = extra go build flags
   local out="$1"; shift
   local tmp="$BIN/.$out.$$"
-  ( cd "$ROOT/harness" && cp -f /repo/go.sum go.sum 2>/dev/null; go build -tags verif "$@" -o "$tmp" ./cmd/vcheck ) || { echo "BUILD FAILED ($out)"; rm -f "$tmp"; return 1; }
+  ( cd "$ROOT/harness" && { [ -n "$MODFLAG" ] || cp -f /repo/go.sum go.sum 2>/dev/null; }; go build $MODFLAG -tags verif "$@" -o "$tmp" ./cmd/vcheck ) || { echo "BUILD FAILED ($out)"; rm -f "$tmp"; return 1; }
   mv -f "$tmp" "$BIN/$out"
 }
 
@@ -30,8 +42,8 @@ case "$cmd" in
     tier="${2:-${VERIF_TIER:-quick}}"
     if [ "$cmd" = C19 ]; then
       build "vcheck-$cmd" -race || exit 3
-      export GORACE="halt_on_error=0 log_path=$ROOT/.build/logs/race-$cmd-$tier"
-      rm -f "$ROOT/.build/logs/race-$cmd-$tier".*
+      export GORACE="halt_on_error=0 log_path=$OUT/.build/logs/race-$cmd-$tier"
+      rm -f "$OUT/.build/logs/race-$cmd-$tier".*
     else
       build "vcheck-$cmd" || exit 3
     fi
